@@ -1116,7 +1116,32 @@ func (g *pgen) sliceStmt(o *pout) {
 		return
 	}
 	g.cat("slice")
-	switch g.n(0, 8, "slk") {
+	switch g.n(0, 10, "slk") {
+	case 9, 10:
+		// append around the capacity boundary of a fresh slice: one short of, exactly at, one
+		// past the capacity; observed through aliasing with the original and cap equality
+		g.cat("append")
+		l, c := g.n(0, 3, "fl"), g.n(3, 6, "fc")
+		a, b := g.fresh(), g.fresh()
+		o.line("%s := make([]int, %d, %d)", a, l, c)
+		g.declare(o, a, "[]int")
+		k := c - l + g.n(-1, 1, "fd")
+		if k < 1 {
+			k = 1
+		}
+		var args []string
+		for i := 0; i < k; i++ {
+			args = append(args, g.intExpr("int", 0).s)
+		}
+		o.line("%s := append(%s, %s)", b, a, strings.Join(args, ", "))
+		o.line("if cap(%s) != cap(%s) {", b, a)
+		o.line("\t%s = %s[:len(%s):len(%s)]", b, b, b, b)
+		o.line("}")
+		g.declare(o, b, "[]int")
+		o.line("if len(%s) > 0 {", b)
+		o.line("\t%s[0] = 99", b)
+		o.line("}")
+		o.line("emit(%q + ints(%s[:cap(%s)]) + ints(%s) + btoa(cap(%s) == cap(%s)))", "boundary=", a, a, b, a, b)
 	case 0, 1, 2:
 		// append in place or growing; capacity after growth is clamped so that it is never observed
 		g.cat("append")
@@ -2046,9 +2071,55 @@ func (g *pgen) stmtInner(o *pout, depth int) {
 	}
 }
 
+// focusKinds are the statement families a fragment can be centred on: the
+// fragments of a batch take them in turn (stratified generation), so that a
+// batch of >= len(focusKinds) fragments exercises every family at least twice.
+var focusKinds = []string{"slice", "switch", "defer", "for", "range", "struct", "closure", "iface", "map", "array", "string", "goto", "ptr", "extra", "assign", "extra"}
+
+func (g *pgen) focusStmt(o *pout, kind string) {
+	g.pb = 0
+	if g.chance(10) {
+		g.pb = 1
+	}
+	switch kind {
+	case "slice":
+		g.sliceStmt(o)
+	case "switch":
+		g.switchStmt(o, 2)
+	case "defer":
+		g.deferStmt(o, 2)
+	case "for":
+		g.forStmt(o, 2)
+	case "range":
+		g.rangeStmt(o, 2)
+	case "struct":
+		g.structStmt(o)
+	case "closure":
+		g.closureStmt(o)
+	case "iface":
+		g.ifaceStmt(o)
+	case "map":
+		g.mapStmt(o)
+	case "array":
+		g.arrayStmt(o)
+	case "string":
+		g.stringStmt(o)
+	case "goto":
+		g.gotoStmt(o)
+	case "ptr":
+		g.ptrStmt(o)
+	case "extra":
+		g.extraStmt(o, 2)
+	default:
+		g.assignStmt(o)
+	}
+	g.pb = 0
+}
+
 // drawFrag generates one fragment.
 func drawFrag(rt *rapid.T, idx int) Frag {
 	g := &pgen{rt: rt, id: strconv.Itoa(idx), cats: map[string]bool{}}
+	focus := focusKinds[idx%len(focusKinds)]
 	var body strings.Builder
 	o := &pout{&body, 1}
 	g.push()
@@ -2077,8 +2148,13 @@ func drawFrag(rt *rapid.T, idx int) Frag {
 	}
 	g.budget = g.n(4, 22, "budget")
 	for g.budget > 0 {
+		if g.chance(25) {
+			g.focusStmt(o, focus)
+		}
 		g.stmt(o, 3)
 	}
+	g.budget = 4
+	g.focusStmt(o, focus)
 	// final values of everything still in scope
 	for _, v := range g.varsOf(func(pvar) bool { return true }) {
 		g.emitVar(o, v)
